@@ -20,7 +20,7 @@ func init() {
 		Level: "exploration",
 		Rule: "E-twin with an ideal recursive shadow: the driver knows the tree, so the shadow holds a raw watch on every directory of every recursive root keyed by its TRUE current path (renames update it by path component), " +
 			"adds a new directory right after its mkdir returned and its Create was delivered (barrier), ignores IN_MOVE_SELF. Trees whose siblings share string prefixes (dir1/dir10, sub/sub2, a/ab/abc) at several depths, 2-3 recursive roots of which one is removed mid-history; " +
-			"mkdir one level at a time, renames of inner directories within the tree (also onto names that are prefixes of siblings, and re-creating a directory under a renamed directory's old name), file create/write/chmod/rename/unlink at every depth, rmdir. " +
+			"mkdir one level at a time, renames of inner directories within the tree (also onto names that are prefixes of siblings, onto an existing empty directory, and re-creating a directory under a renamed directory's old name), file create/write/chmod/rename/unlink at every depth, rmdir. " +
 			"Expected vs received as in C01-C03/C08; after Remove(root) nothing from that tree and everything from the others. distinct_nontrivial = distinct histories with >=1 inner-directory rename or root removal and >=1 compared event",
 		Assumptions: []string{"WatchList() of a recursive watch is unspecified and not compared", "mkdir -p bursts and moves across the root are documented limitations and are not generated", "kernel shadow = ground truth"},
 		Batches:     func(t string) int { return map[string]int{"quick": 12, "thorough": 48}[t] },
